@@ -118,6 +118,9 @@ def run(prog, rep, tier, cfg):
     for cl in main_closure(prog, CO, lambda c: X.write_blocks(c, 'MinerInfo', 'owner')):
         wb = X.write_blocks(cl, 'MinerInfo', 'beneficiary')
         X.guard('K6b', 'change_owner:beneficiary-follows-only-if-owner', cl, wb, m_rel('eq', ['F:MinerInfo.beneficiary'], ['F:MinerInfo.owner'], True), 'info.beneficiary == info.owner')
+    # ---- error discipline: no Result produced in these crates is silently discarded
+    X.no_dropped_results('K14', 'results-not-discarded', ['fil_actor_miner'], 'no Result of a call is discarded')
+
 
 
 def beneficiary_gates(prog, rep, X, prefix=''):
